@@ -1,4 +1,5 @@
 """C13 — dense rewards add up to the sparse objective."""
+from . import common
 from .framework import Failure
 from .sessioncheck import SessionCheck
 
@@ -32,7 +33,60 @@ class C13(SessionCheck):
         x = float(x)
         return int(x) if x.is_integer() and abs(x) < 2 ** 53 else x
 
+    def gen_cases(self, rng, n):
+        cases = super().gen_cases(rng, n)
+        # the multi-instance environment with a reward function installed through its public setter
+        # (`env.reward_function = IdleTimeReward(env.dispatcher)`): judged by the property's clauses (no model)
+        for _ in range(3 if self.tier == "quick" else 12):
+            cases.append({"kind": "multi-setter", "seed": rng.randrange(10 ** 6), "idle": 1,   # (a second MakespanReward is refused by the singleton guard)
+                          "episodes": rng.randint(1, 3)})
+            self.note("multi_env_reward_function_setter")
+        return cases
+
+    @staticmethod
+    def run_multi_setter(case):
+        import random as _random
+
+        common.import_impl()
+        from job_shop_lib.dispatching import DispatcherObserverConfig
+        from job_shop_lib.dispatching.feature_observers import FeatureObserverType
+        from job_shop_lib.generation import GeneralInstanceGenerator
+        from job_shop_lib.graphs import build_agent_task_graph
+        from job_shop_lib.reinforcement_learning import IdleTimeReward, MakespanReward, MultiJobShopGraphEnv
+
+        r = _random.Random(case["seed"])
+        gen = GeneralInstanceGenerator(num_jobs=(2, 4), num_machines=(2, 3), allow_less_jobs_than_machines=True,
+                                       seed=case["seed"])
+        env = MultiJobShopGraphEnv(instance_generator=gen,
+                                   feature_observer_configs=[DispatcherObserverConfig(FeatureObserverType.IS_READY)],
+                                   graph_initializer=build_agent_task_graph)
+        problems = []
+        for ep in range(case["episodes"]):
+            env.reset()
+            env.reward_function = (IdleTimeReward if case["idle"] else MakespanReward)(env.dispatcher)
+            rf = env.reward_function
+            k = 0
+            done = False
+            while not done:
+                op = r.choice(env.dispatcher.available_operations())
+                _, reward, done, _, _ = env.step((op.job_id, r.choice(op.machines)))
+                k += 1
+                sched = env.dispatcher.schedule
+                if case["idle"]:
+                    target = -sum(max(s.end_time for s in row) - sum(s.operation.duration for s in row)
+                                  for row in sched.schedule if row)
+                else:
+                    target = -sched.makespan()
+                if len(rf.rewards) != k or any(x > 0 for x in rf.rewards) or sum(rf.rewards) != target \
+                        or reward != rf.rewards[-1]:
+                    problems.append([ep, k, len(rf.rewards), C13._exact(sum(rf.rewards)), C13._exact(target),
+                                     C13._exact(reward)])
+                    done = True
+        return {"problems": problems}
+
     def run_impl(self, case):
+        if case.get("kind") == "multi-setter":
+            return self.run_multi_setter(case)
         from . import session
 
         sess = session.ImplSession(case["spec"], case["filters"], case.get("env"))
@@ -54,6 +108,8 @@ class C13(SessionCheck):
         return {"outs": outs, "steps": step_rewards, "env_rw": env_rw}
 
     def model_requests(self, case, obs):
+        if case.get("kind") == "multi-setter":
+            return []
         return super().model_requests(case, obs["outs"])
 
     def extra_requests(self, case, outs):
@@ -61,6 +117,11 @@ class C13(SessionCheck):
         return [(5, [case["spec"], snaps])]
 
     def judge(self, case, obs, outs):
+        if case.get("kind") == "multi-setter":
+            return [Failure("oracle", "multi-env-reward-function-setter",
+                            f"episode {p[0]}, step {p[1]}: {p[2]} rewards emitted for {p[1]} steps, their sum is "
+                            f"{p[3]}, minus the objective of the schedule is {p[4]}, the step returned {p[5]}",
+                            observed=p) for p in obs["problems"][:1]]
         model_out, _cl, tracking = outs
         io = obs["outs"]
         fails = self.tie_failures(case, io, model_out)
@@ -167,6 +228,8 @@ class C13(SessionCheck):
                                  f"rows is {target}", expected=target, observed=rw))
 
     def nontrivial(self, case, obs):
+        if case.get("kind") == "multi-setter":
+            return False
         return super().nontrivial(case, obs["outs"])
 
 
